@@ -98,6 +98,7 @@ func run(c *vf.Ctx, si int) {
 		kind   string
 		amount *big.Int
 		mustRefuse string // non-empty: the statement requires refusal, with the reason
+		handover   bool   // second update of the former owner in a same-block handover
 		aux    string
 		auxI   int
 	}
@@ -278,6 +279,31 @@ func run(c *vf.Ctx, si int) {
 			}
 		}
 		ops := genOps(no, 2+r.Intn(5), boundary)
+		if len(nameOwner) > 0 && boundary < 0 && r.Intn(5) == 0 {
+			// same-block handover: the owner hands the name to B, tries to hand it to C afterwards (no longer
+			// the owner: must be refused), then B hands it to C
+			for _, o := range ops { // give back the nonces of the replaced ops
+				nonce[o.a]--
+			}
+			var names []string
+			for k := range nameOwner {
+				names = append(names, k)
+			}
+			sort.Strings(names)
+			nm := names[r.Intn(len(names))]
+			alice := nameOwner[nm]
+			bob := (alice + 1 + r.Intn(NA-1)) % NA
+			carol := bob
+			for carol == bob || carol == alice {
+				carol = r.Intn(NA)
+			}
+			upd := func(a, to int, h bool) op {
+				return op{desc: fmt.Sprintf("name-update a%d %s -> a%d (same-block handover)", a, nm, to), a: a, kind: "name-update", aux: nm, auxI: to, amount: namePrice, handover: h,
+					tx: mkGov(a, types.AergoName, namePrice, rig.GovPayload("v1updateName", nm, w.Accts[to].B58()), no)}
+			}
+			ops = []op{upd(alice, bob, false), upd(alice, carol, true), upd(bob, carol, false)}
+			c.Count("same_block_handover_blocks", 1)
+		}
 		var txs [][]byte
 		cd := caseDesc{Scenario: name, Height: no}
 		for _, o := range ops {
@@ -313,6 +339,18 @@ func run(c *vf.Ctx, si int) {
 			}
 			cd.Statuses = append(cd.Statuses, status)
 			c.Count("op/"+o.kind+"/"+status, 1)
+			if o.kind == "name-update" {
+				// decided against the owner at THIS point of the block: ops are applied in block order and
+				// the model follows every successful update, so an earlier tx of the same block may have
+				// handed the name to (or away from) this sender
+				o.mustRefuse = ""
+				if cur, ok := nameOwner[o.aux]; ok && cur != o.a {
+					o.mustRefuse = "name changed by a non-owner"
+					if o.handover {
+						c.Count("former_owner_update_after_handover_in_same_block", 1)
+					}
+				}
+			}
 			if o.mustRefuse != "" {
 				c.Count("must_refuse/"+o.mustRefuse, 1)
 				if status == "SUCCESS" {
